@@ -406,3 +406,80 @@ def build_all(recipes):
     for r in recipes:
         table[r['h']] = build_object(r, table)
     return table
+
+
+# ---------------------------------------------------------------------------
+# Toy mechanistic model (any number of parameters and outputs, no solver)
+# ---------------------------------------------------------------------------
+_TOY = {}
+
+
+def toy_mech(n_params, n_outputs):
+    """
+    Hand-written chi.MechanisticModel (as chi's own tests use): output j at
+    time t is sum_k a_jk p_k exp(-0.1 (k+1) t); linear in the parameters.
+    """
+    import chi
+    cls = _TOY.get('cls')
+    if cls is None:
+        class ToyMechanisticModel(chi.MechanisticModel):
+            def __init__(self, n_params, n_outputs):
+                super(ToyMechanisticModel, self).__init__()
+                self._n_p = int(n_params)
+                self._n_o = int(n_outputs)
+                self._sens = None
+                self._names = ['theta %d' % (k + 1) for k in range(self._n_p)]
+                self._outs = ['y %d' % (j + 1) for j in range(self._n_o)]
+                self._a = np.array(
+                    [[1.0 + 0.3 * ((j + 2 * k) % 5) for k in range(self._n_p)]
+                     for j in range(self._n_o)])
+
+            def enable_sensitivities(self, enabled, parameter_names=None):
+                if not enabled:
+                    self._sens = None
+                    return
+                if parameter_names is None:
+                    self._sens = list(range(self._n_p))
+                else:
+                    sel = [k for k, n in enumerate(self._names)
+                           if n in parameter_names]
+                    if not sel:
+                        raise ValueError('None of the parameters could be '
+                                         'identified.')
+                    self._sens = sel
+
+            def has_sensitivities(self):
+                return self._sens is not None
+
+            def n_outputs(self):
+                return self._n_o
+
+            def n_parameters(self):
+                return self._n_p
+
+            def outputs(self):
+                return list(self._outs)
+
+            def parameters(self):
+                return list(self._names)
+
+            def set_parameter_names(self, names):
+                self._names = [names.get(n, n) for n in self._names]
+
+            def simulate(self, parameters, times):
+                p = np.asarray(parameters, dtype=float)
+                t = np.asarray(times, dtype=float)
+                if len(p) != self._n_p:
+                    raise ValueError('wrong number of parameters')
+                decay = np.exp(-0.1 * np.outer(
+                    np.arange(1, self._n_p + 1), t))      # (k, t)
+                out = (self._a * p[np.newaxis, :]) @ decay   # (j, t)
+                if self._sens is None:
+                    return out
+                sens = np.empty((len(t), self._n_o, len(self._sens)))
+                for c, k in enumerate(self._sens):
+                    sens[:, :, c] = np.outer(decay[k], self._a[:, k])
+                return out, sens
+        cls = ToyMechanisticModel
+        _TOY['cls'] = cls
+    return cls(n_params, n_outputs)
